@@ -247,6 +247,7 @@ func TestC11Race(t *testing.T) {
 		cl.Destroy()
 		recheck("after Destroy of the shared client")
 		fmt.Printf("C11-STATS shared-client pairs=%d mismatched=%d requests=%d\n", got, bad, len(sim.log))
+		c11KDCIssues("shared-client", sim)
 	})
 	// S3: a TGT that is nearly used up when it is issued (authenticated 4 minutes ago, 30 s left): the first
 	// service-ticket requests, from two goroutines, have to refresh the session themselves (by renewal, and
@@ -337,6 +338,7 @@ func TestC11Race(t *testing.T) {
 		wg.Wait()
 		cl.Destroy()
 		fmt.Printf("C11-STATS relogin-during-renewal requests=%d logins=%d\n", reqs, logins)
+		c11KDCIssues("relogin-during-renewal", sim)
 	})
 	// S5: the TGT runs out during a KDC outage (every renewal attempt fails); when the KDCs are back, requests
 	// from several goroutines find an expired session and have to log in again
@@ -468,6 +470,34 @@ func TestC11Race(t *testing.T) {
 			cl.Destroy()
 		})
 	}
+	// S8: a new login while the auto-renewal of the session it replaces is in flight; the renewal's answer arrives
+	// afterwards; further logins and Destroy go on working
+	c11Watchdog("login-during-auto-renewal", 30*time.Second, func() {
+		sim := newKDCSim(simPolicy{maxLife: 2 * time.Second, maxRenew: time.Hour, sessionEt: 18}, 24*time.Hour, NewRNG(10))
+		defer sim.close()
+		cfg, err := config.NewFromString(sim.conf(" ticket_lifetime = 24h\n renew_lifetime = 72h\n"))
+		if err != nil {
+			t.Fatal(err)
+		}
+		cl := client.NewWithPassword(c09User, "TEST.GOKRB5", clientPassword, cfg, client.DisablePAFXFAST(true))
+		if err := cl.Login(); err != nil {
+			fmt.Printf("C11-NOTE login failed: %v\n", err)
+		}
+		atomic.StoreInt32(&sim.slowTGS, 1)
+		atomic.StoreInt64(&sim.slowNs, int64(600*time.Millisecond))
+		seen := atomic.LoadInt64(&sim.arrived)
+		for i := 0; i < 1000 && atomic.LoadInt64(&sim.arrived) == seen; i++ {
+			time.Sleep(3 * time.Millisecond)
+		}
+		cl.Login()                         // replaces the session whose renewal is waiting for its answer
+		time.Sleep(800 * time.Millisecond) // the renewal's answer has arrived
+		atomic.StoreInt64(&sim.slowNs, 0)
+		cl.Login()
+		cl.GetServiceTicket(spns[0])
+		cl.Print(io.Discard)
+		cl.Destroy()
+		cl.Destroy()
+	})
 	// S2: one configuration shared by goroutines resolving servers and realms, and by two clients
 	c11Watchdog("shared-config", 60*time.Second, func() {
 		sim := newKDCSim(simPolicy{maxLife: time.Hour, sessionEt: 18}, 24*time.Hour, rng)
@@ -538,6 +568,26 @@ func TestC11Race(t *testing.T) {
 		}
 		wg.Wait()
 	})
+	fmt.Println("C11-ALL-DONE")
+}
+
+// c11KDCIssues: requests the simulated KDC had to refuse because the authenticator was not made with the session key
+// of the ticket it came with: the client put together a ticket and a key that were not issued together
+func c11KDCIssues(name string, sim *kdcSim) {
+	sim.mu.Lock()
+	defer sim.mu.Unlock()
+	n := 0
+	for _, r := range sim.log {
+		for _, is := range r.issues {
+			if strings.Contains(is, "does not decrypt under the session key") {
+				n++
+				if n <= 2 {
+					fmt.Printf("C11-PAIR-MISMATCH in a request of scenario %s: %s\n", name, is)
+				}
+			}
+		}
+	}
+	fmt.Printf("C11-STATS %s requests-with-ticket-and-key-not-issued-together=%d of %d\n", name, n, len(sim.log))
 }
 
 func sortedVals(m map[int]string) string {
@@ -700,6 +750,18 @@ func TestC11(t *testing.T) {
 		if i := strings.Index(text, key); i >= 0 {
 			v.Violate("failing-input", "c11:"+strings.ToLower(key), "under concurrency: "+strings.ToLower(strings.TrimPrefix(key, "C11-")), map[string]string{"line": cut(text[i:], 400)})
 		}
+	}
+	// the workload ran to its end: a panic in any goroutine of the child ends it early (the exit status alone does not
+	// say so: the race detector makes it non-zero whenever it has reported something)
+	if !strings.Contains(text, "C11-ALL-DONE") && !strings.Contains(text, "C11-DEADLOCK") {
+		i := strings.Index(text, "panic: ")
+		if j := strings.Index(text, "fatal error: "); i < 0 || (j >= 0 && j < i) {
+			i = j
+		}
+		if i < 0 {
+			i = max(0, len(text)-3000)
+		}
+		v.Violate("failing-input", "c11:workload-crashed", "the concurrent workload did not run to its end: a goroutine sharing a client or a configuration panicked or the process died", map[string]string{"output": cut(text[i:], 4000), "exit": fmt.Sprint(err)})
 	}
 	if err != nil && races == 0 && !strings.Contains(text, "C11-DEADLOCK") {
 		v.Violate("failing-input", "c11:workload-failed", "the concurrent workload failed: "+err.Error(), map[string]string{"output": cut(text, 4000)})
